@@ -146,6 +146,8 @@ def top_node(label):
     """top-level workflow node a job label belongs to (nested specs use '<name>i<k>')"""
     if label.startswith("dwi"):
         return "dw0"
+    if label == "cx":
+        return "cx"
     return label.split("i", 1)[0]
 
 
